@@ -18,7 +18,7 @@ def main(argv=None):
     from . import runner
     if a.replay:
         return runner.replay(a.replay, quiet=a.quiet)
-    if a.prop in ('selftest-determinism', 'selftest-mutants', 'selftest-seeded'):
+    if a.prop in ('selftest-determinism', 'selftest-mutants', 'selftest-seeded', 'selftest-antimutants'):
         from . import selftest
         return selftest.main(a.prop, a)
     if not a.prop:
